@@ -138,6 +138,12 @@ which sees a construct first and hands everything it does not recognise to Fn):
   entry is None or a list of ints / of bytes-or-int values (bi: BiB | BiI; elements are injected by their static type): `x is not None`
   and x.append(e) narrow x to the list (AttributeError on None), x[k] / x[k] = e raise TypeError on None, v.replace(..) on a bi value
   raises AttributeError for an int; `while True` runs on FUEL = len(self_fh_lines) + 1.
+* the classes OUI / IAB of netaddr/eui/__init__.py -> pysrc_euic_gen.v: a unit entry key "dict:<name>" declares a dict with constant
+  string keys held in a local or in self.<attr>: it is one variable per key (d['k'] = d__k; a dict literal = the assignments of its
+  keys; an attribute dict = leading parameters and the result); `self.<list>.append(d)` as the last statement = the method answers d;
+  a for loop whose body rebinds its loop variable gets a fresh one; str(self) = the translated __str__; text % (a, b, ..) = py_fmt_ints;
+  s.split("\n") = py_str_split_nl, s.strip() = py_str_strip, s.split(None, 2)[2] = py_str_field3 (Model/Ieee.v split_nl / strip /
+  third_field), `a in b` and truth of text as for bytes.
 """
 import ast
 import os
@@ -325,14 +331,27 @@ SRCF_UNITS = [
 SRCF_UNITS.append(("netaddr/eui/ieee.py", "pysrc_ieee_gen.v", "", " Base.PyStr Model.SrcPreludeStr Model.Ieee Model.SrcPreludeIeee", [
     ("OUIIndexParser", "parse", {"self.fh": "file", "record": "optintlist"}),
     ("IABIndexParser", "parse", {"self.fh": "file", "record": "optbilist"})]))
+# the record classes OUI / IAB of netaddr/eui/__init__.py (property C19): a unit of its own (it needs Model/Ieee.v, not Model/Eui.v).
+# "dict:<name>" declares a dict with constant string keys, held in the local / attribute <name>: it is translated as one variable
+# per key (<name>__<key>); `self.records.append(r)` as the last statement = the method answers r; a method of IAB that assigns
+# self.record[..] answers the new record.
+SRCF_UNITS.append(("netaddr/eui/__init__.py", "pysrc_euic_gen.v", "",
+                   " Base.PyStr Model.SrcPreludeStr Model.SrcPreludeEui2 Model.Ieee Model.SrcPreludeIeee", [
+    ("OUI", "__str__", {}), ("IAB", "__str__", {}),
+    ("OUI", "_parse_data", {"data": "str", "offset": "int", "size": "int", "dict:record": "idx,oui,org,address,offset,size"}),
+    ("IAB", "_parse_data", {"data": "str", "offset": "int", "size": "int",
+                            "dict:self.record": "idx:int,iab:str,org:str,address:list str,offset:int,size:int"})]))
+STATE["OUI"] = ("v",)
 STATE["OUIIndexParser"] = STATE["IABIndexParser"] = ()
+UNIT_PREAMBLE["pysrc_euic_gen.v"] = ("(* Model/Ieee.v leaves string_scope open: `++` below is list concatenation *)\n"
+                                      "Open Scope list_scope.\nOpen Scope Z_scope.\n")
 UNIT_PREAMBLE["pysrc_ieee_gen.v"] = ("(* Model/Ieee.v leaves string_scope open: `++` below is list concatenation *)\n"
                                       "Open Scope list_scope.\nOpen Scope Z_scope.\n")
 FUEL[("OUIIndexParser", "parse", 1)] = ("len(self_fh_lines)", 1)       # one line per iteration, one more to see the end of the file
 FUEL[("IABIndexParser", "parse", 1)] = ("len(self_fh_lines)", 1)
 UNITS += SRCF_UNITS
 FILES = FILES + tuple(u[1] for u in SRCF_UNITS)
-STATE["IAB"] = ()
+STATE["IAB"] = ("v",)
 COQTY.update({"edialect": "dialect_t", "optedialect": "(option dialect_t)", "optstr": "(option string)", "darg": "darg"})
 SRCF_VALUE_TYPES = ("edialect", "optedialect", "optstr", "darg", "pat", "matches", "optgroups", "optintlist", "bi", "optbilist")
 COQTY.update({"optintlist": "(option (list Z))", "bi": "bi", "optbilist": "(option (list bi))"})
@@ -344,7 +363,8 @@ SRCF_RESERVED = set("dialect_t mk_dialect d_word_size d_num_words d_word_sep d_w
                     "py_int_to_bits py_getitem_o py_setitem_o py_slice_lit py_fmt_int py_fmt_ints py_map_o py_hash_pair join map "
                     "dialect darg DNone DRec DBad word_size num_words word_sep word_fmt pat mac_pats eui64_pats py_findall "
                     "py_matches_len py_found py_match0 py_is_tuple py_group_str py_optgroups_truthy py_readline py_bytes_in "
-                    "py_bytes_split0 py_bytes_split_sep0 py_int16_bytes py_bytes_truthy bi BiB BiI bi_bytes blen contains".split())
+                    "py_bytes_split0 py_bytes_split_sep0 py_int16_bytes py_bytes_truthy bi BiB BiI bi_bytes blen contains "
+                    "py_str_split_nl py_str_strip py_str_field3 strip".split())
 BY_FILE = {}        # (SRCF) source file -> all translators made for it, in unit order (filled by generate())
 FN_CLASS = {}       # (SRCF) output file -> the subclass of Fn that translates that unit's functions
 PURE_METHODS = PURE_METHODS + ("findall",)         # <compiled pattern>.findall(text) does not change the pattern object
@@ -2086,6 +2106,9 @@ class FnF(Fn):
         self.local_types = {x: t for x, t in getattr(self, "spec_types", {}).items() if t in self.OPTLIST}
         if "self.fh" in self.ptypes_declared:
             self.init_file_state(env)
+        if any(x.startswith("dict:") for x in self.ptypes_declared):
+            self.init_dicts(env)
+        self.no_state_text = (self.recv, self.pyname) in SRCF_CLASSMETHODS
         for i, (cn, ty) in enumerate(self.params):              # a parameter declared "tup:<t1>,<t2>,..": a tuple of those types
             if isinstance(ty, str) and ty.startswith("tup:"):
                 ty = ("tup", tuple(ty[4:].split(",")))
@@ -2169,6 +2192,8 @@ class FnF(Fn):
 
     def generated(self, node, recv, name, state, args):
         d = self.tr.get(recv, name, node)
+        if getattr(d, "no_state_text", False):
+            return self.generated_d(node, d, "", args)
         if getattr(d, "dialect_param", False):           # the callee reads the receiver's _dialect: it is its first parameter
             m = re.fullmatch(r"\(ever (.+)\) \(evalue \1\)", state or "")
             if m:
@@ -2208,7 +2233,7 @@ class FnF(Fn):
             return "(py_found %s)" % t                      # truth of a findall() result
         if ty == "optgroups":
             return "(py_optgroups_truthy %s)" % t           # truth of None / the groups of a match
-        if ty == "str" and self.tr.out == "pysrc_ieee_gen.v":
+        if ty == "str" and self.tr.out in ("pysrc_ieee_gen.v", "pysrc_euic_gen.v"):
             return "(py_bytes_truthy %s)" % t               # truth of a bytes object
         self.restore(snap)
         self.pre = pre0
@@ -2475,6 +2500,79 @@ class FnF(Fn):
             env["@taint"] |= {x}
             self.params.append((cn, ty))
 
+    def init_dicts(self, env):
+        """a dict with constant string keys held in a local (`dict:<name>`: created by a dict literal in the method) or in an attribute
+        (`dict:self.<attr>`: its fields, with their declared types, are leading parameters and the method answers the new dict) is one
+        variable per key: d['k'] = the name d__k.  The dict itself may only be used as `self.<list>.append(d)` in the last statement
+        (the method answers d) -- or not at all for an attribute dict.  A for loop whose body rebinds its own loop variable gets a
+        fresh loop variable (`for x in l: x = f(x)` = `for x__it in l: x = x__it; x = f(x)`)."""
+        import copy
+        f = copy.deepcopy(self.f)
+        loc = lambda n, at: ast.copy_location(n, at)
+        dicts = {}
+        for key in self.ptypes_declared:
+            if key.startswith("dict:"):
+                path = key[5:]
+                fields = [x.partition(":") for x in self.spec_types[key].split(",")]
+                dicts[path] = (path.replace(".", "_"), [(k, t or None) for k, _, t in fields])
+        fn = self
+
+        class T(ast.NodeTransformer):
+            def visit_Subscript(self, n):
+                path = dotted(n.value)
+                if path in dicts and isinstance(n.slice, ast.Constant) and isinstance(n.slice.value, str):
+                    if n.slice.value not in [k for k, _ in dicts[path][1]]:
+                        bad(n, "key %r of %s is not declared" % (n.slice.value, path))
+                    return loc(ast.Name(id="%s__%s" % (dicts[path][0], n.slice.value), ctx=n.ctx), n)
+                return self.generic_visit(n)
+
+            def visit_Assign(self, st):
+                if (len(st.targets) == 1 and dotted(st.targets[0]) in dicts and "." not in dotted(st.targets[0]) and isinstance(st.value, ast.Dict)):
+                    base, fields = dicts[dotted(st.targets[0])]
+                    keys = [k.value if isinstance(k, ast.Constant) else None for k in st.value.keys]
+                    if keys != [k for k, _ in fields]:
+                        bad(st, "dict literal whose keys are not the declared ones, in order")
+                    return [loc(ast.Assign(targets=[loc(ast.Name(id="%s__%s" % (base, k), ctx=ast.Store()), st)], value=self.visit(v)), st)
+                            for k, v in zip(keys, st.value.values)]
+                return self.generic_visit(st)
+
+            def visit_For(self, st):
+                st = self.generic_visit(st)
+                if isinstance(st.target, ast.Name) and st.target.id in assigned_names(st.body):
+                    x = st.target.id
+                    st.body = [loc(ast.Assign(targets=[loc(ast.Name(id=x, ctx=ast.Store()), st)],
+                                              value=loc(ast.Name(id=x + "__it", ctx=ast.Load()), st)), st)] + st.body
+                    st.target = loc(ast.Name(id=x + "__it", ctx=ast.Store()), st)
+                return st
+        last = f.body[-1]
+        local = [p for p in dicts if "." not in p]
+        if (local and isinstance(last, ast.Expr) and isinstance(last.value, ast.Call) and isinstance(last.value.func, ast.Attribute)
+                and last.value.func.attr == "append" and (dotted(last.value.func.value) or "").startswith("self.") and len(last.value.args) == 1
+                and dotted(last.value.args[0]) in local and not last.value.keywords):
+            base, fields = dicts[dotted(last.value.args[0])]      # self.<list>.append(d) at the end: the method answers d
+            f.body[-1] = loc(ast.Return(value=loc(ast.Tuple(elts=[loc(ast.Name(id="%s__%s" % (base, k), ctx=ast.Load()), last) for k, _ in fields],
+                                                            ctx=ast.Load()), last)), last)
+        f = T().visit(f)
+        for path, (base, fields) in dicts.items():
+            if "." in path:                                  # an attribute dict: its fields are parameters, the new dict is the result
+                if any(isinstance(n, ast.Return) for n in ast.walk(f)):
+                    bad(self.f, "return in a method that updates the dict %s" % path)
+                f.body.append(loc(ast.Return(value=loc(ast.Tuple(elts=[loc(ast.Name(id="%s__%s" % (base, k), ctx=ast.Load()), last) for k, _ in fields],
+                                                                 ctx=ast.Load()), last)), last))
+                f.body[-1].lineno = f.body[-1].end_lineno = f.end_lineno
+                for k, t in fields:
+                    x = "%s__%s" % (base, k)
+                    ty = parse_type(t)
+                    cn = self.coqname(self.f, x)
+                    env[x] = (ty, cn)
+                    env["@taint"] |= {x}
+                    self.params.append((cn, ty))
+        if any(isinstance(n, (ast.Name, ast.Attribute)) and dotted(n) in dicts for n in ast.walk(f)):
+            bad(self.f, "use of a declared dict other than d['key'] / self.<list>.append(d) as the last statement")
+        self.f = ast.fix_missing_locations(f)
+        loops = sorted((n for n in ast.walk(self.f) if isinstance(n, (ast.For, ast.While))), key=lambda n: (n.lineno, n.col_offset))
+        self.loopno = {id(n): i + 1 for i, n in enumerate(loops)}
+
     def compat_bytes_type(self):
         """is _bytes_type bound in netaddr/compat.py only as `lambda x: bytes(x, 'UTF-8')` or as `str`?"""
         fn = "netaddr/compat.py"
@@ -2517,7 +2615,7 @@ class FnF(Fn):
 
     def text(self):
         t = Fn.text(self)
-        if getattr(self, "fullstate", False):           # no receiver state: the method makes it
+        if getattr(self, "fullstate", False) or getattr(self, "no_state_text", False):           # no receiver state: the method makes it / a classmethod
             t = t.replace("Definition %s (%s : Z)" % (self.cname, " ".join(STATE[self.recv])), "Definition %s" % self.cname)
         return t
 
@@ -2700,6 +2798,8 @@ class FnF(Fn):
             ty, t = self.try_ex(node.left, env)
             if ty == "str":                                 # text % int, text % tuple(<list of ints>)
                 r = node.right
+                if isinstance(r, ast.Tuple):              # text % (a, b, ..) with ints
+                    return ("out", "str", "(py_fmt_ints %s [%s])" % (t, "; ".join(self.int_(x, env) for x in r.elts)))
                 if self.builtin_call(r, "tuple", env, 1):
                     lty, lt = self.ex(r, env)
                     if not is_list(lty) or lty[1].find().t != "int":
@@ -2713,6 +2813,15 @@ class FnF(Fn):
     def subscript(self, node, env):
         sl = node.slice
         v = node.value
+        if (const_int(sl) == 2 and isinstance(v, ast.Call) and isinstance(v.func, ast.Attribute) and v.func.attr == "split" and not v.keywords
+                and len(v.args) == 2 and isinstance(v.args[0], ast.Constant) and v.args[0].value is None and const_int(v.args[1]) == 2
+                and self.tr.out == "pysrc_euic_gen.v"):
+            snap, pre0 = self.snapshot(), list(self.pre)
+            ty, t = self.try_ex(v.func.value, env)
+            if ty == "str":
+                return ("out", "str", "(py_str_field3 %s)" % t)             # s.split(None, 2)[2]
+            self.restore(snap)
+            self.pre = pre0
         if (const_int(sl) == 0 and isinstance(v, ast.Call) and isinstance(v.func, ast.Attribute) and v.func.attr == "split" and not v.keywords
                 and len(v.args) <= 1 and self.tr.out == "pysrc_ieee_gen.v"):
             snap, pre0 = self.snapshot(), list(self.pre)
@@ -2788,6 +2897,18 @@ class FnF(Fn):
             if is_list(r[1] if r[0] == "out" else r[0]):
                 return r
             bad(node, "list() of %s" % show(r[1] if r[0] == "out" else r[0]))
+        if (self.builtin_call(node, "str", env, 1) and dotted(node.args[0]) == "self" and "self" not in env and self.recv
+                and self.mod.lookup(self.recv, "__str__")):
+            return self.generated(node, self.recv, "__str__", self.state(env), [])       # str(self) = self.__str__()
+        if (isinstance(f, ast.Attribute) and f.attr in ("split", "strip") and not node.keywords and self.tr.out == "pysrc_euic_gen.v"
+                and (f.attr == "strip" and not node.args or f.attr == "split" and len(node.args) == 1 and isinstance(node.args[0], ast.Constant)
+                     and node.args[0].value == "\n")):
+            snap, pre0 = self.snapshot(), list(self.pre)
+            ty, t = self.try_ex(f.value, env)
+            if ty == "str":
+                return ("str", "(py_str_strip %s)" % t) if f.attr == "strip" else (("list", Cell("str")), "(py_str_split_nl %s)" % t)
+            self.restore(snap)
+            self.pre = pre0
         if isinstance(f, ast.Attribute) and f.attr == "replace" and len(node.args) == 2 and not node.keywords:
             snap, pre0 = self.snapshot(), list(self.pre)
             ty, t = self.ex(f.value, env)
